@@ -195,7 +195,9 @@ def pureModelClientAuth (fs : List String) : Option String :=
           | some e => ⟨.err e, (downOf r (some c)).writes⟩]
       some (lineOf o.auth o.result o.writes)
     | "par" =>
-      let o := parEndpoint H lookup (httpOf r) (requestOf r regs "r") (unesc (kv r "rruri")) (fun c => downOf r (some c))
+      let o := parEndpoint H lookup (httpOf r) (requestOf r regs "r") (unesc (kv r "rruri"))
+        (fun c => if (downOf r (some c)).writes.isEmpty then (downOf r (some c)).err else none)
+        (fun c => downOf r (some c))
       some (lineOf o.auth o.result o.writes)
     | "device" =>
       let o := deviceEndpoint H lookup (httpOf r) (requestOf r regs "p") (fun c => downOf r (some c))
